@@ -376,6 +376,98 @@ def refused_batch_history_probe(rng):
     return _simnet.run(go)
 
 
+def inside_read_probe(helper):
+    """Batches that are sent while a read is being parsed - the connection's own answers to PingRequest / GetTimeRequest, a command
+    an application callback sends - on a real APIConnection: each is its own single write, handed to the transport before
+    data_received returns, also when the read ends in the middle of the next frame; and batches sent afterwards are written at once.
+    Returns a problem text or None."""
+    from vlib import simnet as _simnet
+
+    async def go(loop):
+        from aioesphomeapi import api_pb2 as pb
+        from aioesphomeapi.connection import APIConnection, ConnectionParams
+        from aioesphomeapi.zeroconf import ZeroconfManager
+        net = _simnet.Net(loop)
+        psk = bytes(range(1, 33))
+        params = ConnectionParams(addresses=["10.0.0.1"], port=6053, password=None, client_info="v", keepalive=20.0,
+                                  zeroconf_manager=ZeroconfManager(), noise_psk=noisesim.b64(psk) if helper == "noise" else None, expected_name=None)
+        conn = APIConnection(params, lambda e: None, False, None)
+        with net.patched():
+            await conn.start_connection()
+            task = asyncio.ensure_future(conn.finish_connection(login=False))
+            await _simnet.drain(loop)
+            tr = net.transports[-1]
+            resp = None
+            if helper == "noise":
+                resp = noisesim.Responder(psk, b"dev")
+                hs, _ = resp.handshake_frames(noisesim.split_frames(b"".join(d for _, d in tr.writes))[1][1:])
+                n_hs = len(tr.writes)
+                tr.feed(resp.hello_frame() + hs)
+                await _simnet.drain(loop)
+                frame = lambda i, p=b"": resp.data_frame(i, p)[0]  # noqa: E731
+            else:
+                n_hs = 0
+                frame = lambda i, p=b"": _simnet.plain_frame(i, p)  # noqa: E731
+            tr.feed(frame(2, pb.HelloResponse(api_version_major=1, api_version_minor=10, name="dev").SerializeToString()))
+            await _simnet.drain(loop)
+            await task
+            if resp is not None:
+                for _, d in tr.writes[n_hs:]:
+                    for f in noisesim.split_frames(d):
+                        resp.decrypt_client_frame(f)
+
+            def decode(writes):
+                out = []
+                for d in writes:
+                    if resp is None:
+                        out.append([t for t, _ in _simnet.decode_plain_stream(d)])
+                    else:
+                        ids = []
+                        for f in noisesim.split_frames(d):
+                            pt = resp.decrypt_client_frame(f)
+                            ids.append((pt[0] << 8) | pt[1])
+                        out.append(ids)
+                return out
+            conn.add_message_callback(lambda m: conn.send_messages((pb.SwitchCommandRequest(key=m.key, state=True),)), (pb.SensorStateResponse,))
+            def steps_in_order():
+                # frames are produced in the order in which they are fed (a Noise responder's nonces are consecutive)
+                yield "a PingRequest and a GetTimeRequest in one read", frame(7) + frame(36), [[8], [37]]
+                ping = frame(7)
+                nxt = frame(25, pb.SensorStateResponse(key=4, state=2.0).SerializeToString())
+                yield "a PingRequest followed by the first bytes of the next frame", ping + nxt[:2], [[8]]
+                yield "the rest of that frame (a state message whose subscriber sends a command)", nxt[2:], [[33]]
+                state = frame(25, pb.SensorStateResponse(key=3, state=1.0).SerializeToString())
+                ping2 = frame(7)
+                yield "a state message whose subscriber sends a command, followed by one byte of the next frame", state + ping2[:1], [[33]]
+                yield "the rest of that PingRequest", ping2[1:], [[8]]
+            for what, data, want in steps_in_order():
+                n0 = len(tr.writes)
+                r = tr.feed(data)
+                got_now = [d for _, d in tr.writes[n0:]]       # before the loop runs anything else
+                if isinstance(r, BaseException):
+                    return f"{helper}: {what}: {type(r).__name__} escaped from data_received"
+                try:
+                    ids = decode(got_now)
+                except Exception as e:  # noqa: BLE001
+                    return f"{helper}: {what}: what was written does not decode / authenticate in order ({type(e).__name__})"
+                if ids != want:
+                    await _simnet.drain(loop)
+                    later = len(tr.writes) - n0 - len(got_now)
+                    return (f"{helper}: {what}: when data_received returned the transport had been handed the writes {ids} (message ids per write), "
+                            f"expected {want}; {later} more write(s) came later")
+                await _simnet.drain(loop)
+                if len(tr.writes) != n0 + len(got_now):
+                    return f"{helper}: {what}: {len(tr.writes) - n0 - len(got_now)} further write(s) appeared after data_received had returned"
+            n0 = len(tr.writes)
+            conn.send_messages((pb.SwitchCommandRequest(key=9, state=False),))
+            if decode([d for _, d in tr.writes[n0:]]) != [[33]]:
+                return f"{helper}: a command sent after these reads was not written at once as one write"
+            conn.force_disconnect()
+            await _simnet.drain(loop)
+        return None
+    return _simnet.run(go)
+
+
 def run(rep, tier, seed):
     rng = random.Random(seed)
     asyncio.set_event_loop(asyncio.new_event_loop())
@@ -488,6 +580,12 @@ def run(rep, tier, seed):
             rep.bump("neighbour:" + kind)
             if bad:
                 rep.violation("C02/neighbour", f"{kind} helper, two sessions in one process: {bad}", {"kind": "impl-trace", "helper": kind, "probe": "neighbour"})
+    for helper in ("plaintext", "noise"):
+        bad = inside_read_probe(helper)
+        rep.case(("inside-read", helper), True, sample={"kind": "inside-read", "helper": helper, "problem": bad})
+        rep.bump("inside-read:" + helper)
+        if bad:
+            rep.violation("C02/inside-read", "batches sent while a read is being parsed: " + bad, {"kind": "impl-trace", "helper": helper, "probe": "inside-read"})
     bad = refused_batch_history_probe(rng)
     rep.case(("refused-batch-history",), True, sample={"kind": "refused-batch-history", "problem": bad})
     rep.bump("refused-batch-history")
